@@ -457,7 +457,7 @@ def check_C01(ctx):
 
 
 def check_C02(ctx):
-    family_a(ctx, {"extra": [("card", 45), ("early", 45)]})
+    family_a(ctx, {"extra": [("card", 45), ("early", 45), ("gc", 12)]})
 
 
 def check_C03(ctx):
@@ -465,7 +465,7 @@ def check_C03(ctx):
 
 
 def check_C04(ctx):
-    family_a(ctx, {"nunary_q": 300, "nunary_t": 3000, "nsim_q": 220, "nsim_t": 3500})
+    family_a(ctx, {"nunary_q": 300, "nunary_t": 3000, "nsim_q": 220, "nsim_t": 3500, "extra": [("gc", 12)]})
 
 
 def check_C05(ctx):
@@ -478,6 +478,15 @@ def check_C08(ctx):
 
 def check_C20(ctx):
     family_a(ctx, {"extra": [("stall", 150)]})
+
+
+def pinned_cases(prop):
+    """Pinned reproducer cases of the open findings of a tabular property."""
+    out = []
+    for k in load_known():
+        if k["property"] == prop and k["status"] == "open" and k.get("repro", {}).get("kind") == "case":
+            out += k["repro"]["cases"]
+    return out
 
 
 def run_cases(ctx, kind, cases_file, name=None):
@@ -521,6 +530,8 @@ def l2_stateless(ctx, base, kind, rule, expr="Cases", consts=None, sig_keys=(), 
         rec = dict(prop=ctx.prop, why=v["why"], case=c, ev=kind)
         for k in sig_keys:
             rec[k] = c.get(k)
+        if "tr" not in rec and "tr" in c:
+            rec["tr"] = c["tr"]
         ctx.add_violation(rec)
     return j
 
@@ -571,6 +582,29 @@ def check_C09(ctx):
                         "tiny caller deadlines that expire before the handler runs are counted as conforming"]
 
 
+def check_C12(ctx):
+    n = 2 if ctx.quick else 3
+    ctx.exhaustive = True
+    l2_stateless(ctx, "Registry", "registry",
+                 "Registry!NameCases(%d): every method name made of an optional leading slash and up to %d segments over "
+                 "{registered service/method names, prefixes and suffixes of them, empty, '.', '..', junk} x registered sets x "
+                 "{Invoke, NewStream} x {in-process, HTTP}; Registry!BaseCases: 10 base paths x {Server, HandleServices} x "
+                 "methods over loopback HTTP; each call is made on the real code and the handlers that ran are recorded" % (n, n),
+                 expr="NameCases(%d) \\cup BaseCases" % n, extra_cases=pinned_cases("C12"),
+                 sig_keys=("fam", "tr", "kind", "slash", "name", "base", "carrier"))
+
+
+def check_C15(ctx):
+    n = 3 if ctx.quick else 4
+    ctx.exhaustive = True
+    l2_stateless(ctx, "Registry", "registry",
+                 "Registry!HistCases(%d): every sequence of up to %d operations over {register one of 4 descriptors "
+                 "(two share a name; one has no methods) well- or ill-typed, query 4 names, iterate, service info} replayed on "
+                 "grpchan.HandlerMap, inprocgrpc.Channel and httpgrpc.Server; each observation is compared with the abstract "
+                 "registry folded over the history and with grpc.Server.GetServiceInfo for the same registrations" % (n, n),
+                 expr="HistCases(%d)" % n, sig_keys=("fam", "carrier"))
+
+
 def check_C11(ctx):
     ctx.exhaustive = True
     l2_stateless(ctx, "HttpGate", "gate",
@@ -586,5 +620,5 @@ def check_C11(ctx):
 CHECKS = {
     "C01": check_C01, "C02": check_C02, "C03": check_C03, "C04": check_C04, "C05": check_C05,
     "C08": check_C08, "C20": check_C20,
-    "C14": check_C14, "C11": check_C11, "C07": check_C07, "C09": check_C09,
+    "C14": check_C14, "C11": check_C11, "C07": check_C07, "C09": check_C09, "C12": check_C12, "C15": check_C15,
 }
